@@ -228,14 +228,15 @@ INCRATE_TRUST = ["in-crate harness modules pulled in by cfg(kani) hook lines; Ty
 def c04(tier, seed):
     def extra():
         return units_incrate.run_spec(units_incrate.abi_spec())
-    return _verus_prop("C04", tier, seed, [("fnsig", None, None), ("fn_abi", r"::FunctionSig::(abi|is_variadic)::", None)], {
+    return _verus_prop("C04", tier, seed, [("fnsig", None, None), ("ptr_lowering", None, None), ("fn_abi", r"::FunctionSig::(abi|is_variadic)::", None)], {
         "trusted_base": INCRATE_TRUST + ["calling-convention oracle: clang-c/Index.h CXCallingConv values x Rust reference ABI strings (kani_incrate/function_abi.rs)"],
         "functions_under_contract": ["bindgen/ir/function.rs: get_abi (Kani in-crate), FunctionSig::abi, FunctionSig::is_variadic (Verus unit fn_abi)",
-                                     "bindgen/codegen/mod.rs: utils::fnsig_argument_type, utils::fnsig_return_ty_internal (Verus unit fnsig)"],
+                                     "bindgen/codegen/mod.rs: utils::fnsig_argument_type, utils::fnsig_return_ty_internal (Verus unit fnsig); the Pointer/Reference arm of <Type as TryToRustTy>::try_to_rust_ty (Verus unit ptr_lowering, block extracted by rule R18)"],
         "assumptions": ["get_abi: every u32 CXCallingConv value (loop-free, full domain)",
                         "FunctionSig::abi: the ABI emitted is the --override-abi match if any, else what clang reported, or an error; never something else",
+                        "pointer lowering: wrong-sized pointer types are an error; a pointer to (a typedef of) a function type or to an ObjC interface adds no pointer level; C++ references become NonNull when asked; every other pointee gets *const/*mut by the pointee's constness",
                         "argument lowering: array parameters decay to a pointer to the element (const iff element or array is const), ObjC interface pointers are named, everything else keeps its type; return lowering: noreturn -> !, void (through typedefs) -> (), else the type. The type tokens themselves (to_rust_ty_or_opaque) are uninterpreted",],
-        "unverified": ["cursor_mangling / mangled names from libclang; link_name omission (utils::names_will_be_identical_after_mangling: byte-string code); TryToRustTy for pointers/function pointers (seed S16 missed); fnsig_arguments_iter naming; Method::codegen_method; merge_extern_blocks (seed S06 missed); ABI classification by rustc/LLVM vs clang"],
+        "unverified": ["cursor_mangling / mangled names from libclang; link_name omission (utils::names_will_be_identical_after_mangling: byte-string code); the other arms of try_to_rust_ty; fnsig_arguments_iter naming; Method::codegen_method; merge_extern_blocks (seed S06 missed); ABI classification by rustc/LLVM vs clang"],
     }, extra_obs=extra)
 
 
